@@ -23,7 +23,7 @@ COMPONENTS = {"real": ["setigen.voltage.polyphase_filterbank (PolyphaseFilterban
               "stub": ["none needed: no clock, file or entropy is read on this path (entropy seam installed as tripwire)"]}
 ASSUMPTIONS = ["scipy.signal.firwin is the documented window design (trusted)",
                "float comparison at 1e-10 of the largest attainable output magnitude"]
-PROBES = ["stream_dtype_widens_between_chunks", "object_copied_or_pickled_mid_stream", "one_shot_length_not_a_multiple_of_window", "long_single_call", "same_coefficient_count_other_split_alive", "chunk_single_window", "reset_midstream", "nocache_between_feeds", "interleaved_objects",
+PROBES = ["long_chunks_after_a_first_chunk", "stream_dtype_widens_between_chunks", "object_copied_or_pickled_mid_stream", "one_shot_length_not_a_multiple_of_window", "long_single_call", "same_coefficient_count_other_split_alive", "chunk_single_window", "reset_midstream", "nocache_between_feeds", "interleaved_objects",
           "complex_input", "nonpow2_branches", "dtype_switch_after_reset", "noncontiguous_input", "rejected_call"]
 
 WINDOWS = ["hamming", "hann", "boxcar", "blackman"]
@@ -131,10 +131,12 @@ def generate(rng, tier):
         if splits:
             pfbs[1]["T"], pfbs[1]["B"] = rng.choice(splits)
             pfbs[1]["window"] = pfbs[0]["window"]
-    if rng.random() < (0.012 if tier == "quick" else 0.03):
+    if rng.random() < (0.025 if tier == "quick" else 0.05):
         # one very long call: batch sizes inside the implementation are invisible to short streams
         ops.append({"op": "long", "p": rng.randrange(npfb), "log2n": rng.uniform(15.0, 20.4), "seed": rng.randrange(1 << 30),
-                    "chunk_windows": rng.choice([16, 64, 100])})
+                    # the twin stream arrives in moderate chunks - or in two or three very long ones (fast paths for long
+                    # chunks that follow another chunk)
+                    "chunk_windows": rng.choice([16, 64, 100, "half", "third"])})
     return {"seams": {"entropy_salt": rng.randrange(1 << 20), "scratch": "c08"}, "pfbs": pfbs, "ops": ops}
 
 
@@ -306,7 +308,11 @@ def execute(sc, ctx):
                 return
             # ... and the same stream in moderate chunks through a fresh object gives the same spectra
             o2 = pf.PolyphaseFilterbank(num_taps=T, num_branches=B, window_fn=sc["pfbs"][p]["window"])
-            step = op["chunk_windows"] * T * B
+            if op["chunk_windows"] in ("half", "third"):
+                step = -(-k // (2 if op["chunk_windows"] == "half" else 3)) * T * B
+                ctx.hit("long_chunks_after_a_first_chunk")
+            else:
+                step = op["chunk_windows"] * T * B
             parts = [np.asarray(o2.channelize(y[a:a + step].copy(), cache=True)) for a in range(0, len(y), step)]
             cat = np.concatenate(parts)
             if ctx.check(cat.shape == got.shape, "count", "C08/count/long_call_vs_chunked", lambda: "%s vs %s" % (cat.shape, got.shape)):
